@@ -4,6 +4,9 @@ import (
 	"bytes"
 	"fmt"
 	"math/big"
+	"runtime"
+	"sync"
+	"sync/atomic"
 
 	secp256k1 "gitlab.com/yawning/secp256k1-voi"
 	"gitlab.com/yawning/secp256k1-voi/secec"
@@ -404,4 +407,79 @@ func runOwnership(r *mon.Run, id string) {
 		}
 		w.Class(lc + ":ownership:same-address-new-value")
 	})
+}
+
+// Concurrent FIRST use of fresh objects, then the callers overwrite what they were given (C18, and
+// phase 1b of C20 in the race build).  A lazily built encoding or key that is published by the
+// first caller - and handed to a concurrent first caller as the published object itself rather than
+// as a copy - is wrong only from the moment that caller writes to "its" slice.
+func init() {
+	prev := registry["C18"].Run
+	registry["C18"].Run = func(r *mon.Run) {
+		prev(r)
+		if isYield(r) {
+			return
+		}
+		r.Require("c18:concurrent-first-use:rounds")
+		G := 8
+		r.Seq("c18/concurrent-first-use", 1, func(w *mon.W, _ int) {
+			rounds := r.N(700, 8000)
+			for round := 0; round < rounds; round++ {
+				acc := freshAccessors(r.Seed, round, 1000)
+				ref := freshAccessors(r.Seed, round, 1000)
+				// the expensive operations are at the end of the list; the accessors are what this is about
+				nAcc := 18
+				outs := make([][][]byte, G)
+				var ready, goFlag atomic.Int32
+				var wg sync.WaitGroup
+				for g := 0; g < G; g++ {
+					wg.Add(1)
+					go func(g int) {
+						defer wg.Done()
+						my := make([][]byte, nAcc)
+						ready.Add(1)
+						for goFlag.Load() == 0 {
+							runtime.Gosched()
+						}
+						for j := 0; j < nAcc; j++ {
+							k := j
+							if round%2 == 1 {
+								k = (j + g) % nAcc
+							}
+							my[k] = acc[k]()
+						}
+						outs[g] = my
+					}(g)
+				}
+				for ready.Load() < int32(G) {
+					runtime.Gosched()
+				}
+				goFlag.Store(1)
+				wg.Wait()
+				wants := make([][]byte, nAcc)
+				for k := 0; k < nAcc; k++ {
+					wants[k] = ref[k]()
+					for g := 0; g < G; g++ {
+						if !bytes.Equal(outs[g][k], wants[k]) {
+							w.Fail("c18/concurrent-first-use:result", fmt.Sprintf("round %d, goroutine %d: accessor #%d as one of %d simultaneous FIRST calls on fresh objects returned %x, alone it returns %x", round, g, k, G, outs[g][k], wants[k]))
+							return
+						}
+					}
+				}
+				for g := 0; g < G; g++ {
+					for k := range outs[g] {
+						wreckBytes(outs[g][k])
+					}
+				}
+				for k := 0; k < nAcc; k++ {
+					if got := acc[k](); !bytes.Equal(got, wants[k]) {
+						w.Fail("c18/concurrent-first-use:after-callers-overwrote-results", fmt.Sprintf("round %d: accessor #%d returns %x after the goroutines that made the %d simultaneous FIRST calls overwrote the slices they were given; expected %x", round, k, got, G, wants[k]))
+						return
+					}
+				}
+			}
+			w.ClassN("c18:concurrent-first-use:rounds", int64(rounds))
+			w.Case(true, []byte("concurrent-first-use"))
+		})
+	}
 }
